@@ -116,7 +116,7 @@ func loadVerifier(repo, verif string, patterns []string) (*Verifier, error) {
 func (v *Verifier) newExec(fn *ssa.Function, name string, ctr *FuncContract, mode string) *fnExec {
 	fx := &fnExec{v: v, fn: fn, name: name, ctr: ctr, mode: mode, declared: map[string]bool{}, vals: map[ssa.Value]SV{}, heapSorts: map[string]string{},
 		oblCount: map[string]int{}, sharedMut: map[ssa.Value]bool{}, strConsts: map[string]Term{}, fltConsts: map[string]Term{}, needs: map[string]bool{},
-		usedAxioms: map[string]bool{}, unspecCallees: map[string]bool{}, externUsed: map[string]bool{}, contractsUsed: map[string]bool{}, ghostTypes: map[string]string{},
+		usedAxioms: map[string]bool{}, unspecCallees: map[string]bool{}, externUsed: map[string]bool{}, lemmasUsed: map[string]bool{}, contractsUsed: map[string]bool{}, ghostTypes: map[string]string{},
 		ranges: map[*ssa.Range]*rangeState{}, rangeNames: map[string]*rangeState{}, tablesUsed: map[string]bool{}, sliceTables: map[ssa.Value]*sliceTable{}, refHeaps: map[string]bool{}, macros: map[string]bool{}}
 	fx.overflowChecks = true
 	fx.caseIdx = -1
